@@ -335,6 +335,16 @@ Theorem group_unit_ball_prox : forall m d (wb x : list R) (s : R), 0 < s -> (1 <
 Proof. exact groupball_leaf_prox. Qed.
 Print Assumptions group_unit_ball_prox.
 
+(* proximal_l1_l2(space, lam, g): as a composition of the proved rules -- it equals
+   g + prox_{GroupL1Norm, sigma*lam}(x - g) and is a sound factory of lam * GroupL1Norm(. - g) *)
+Theorem factory_l1_l2 : forall m d lam (g wb : list R), 0 < lam -> (1 <= d)%nat -> allpos wb -> length wb = m ->
+  length g = (d * m)%nat ->
+  let w := concat (repeat wb d) in
+  sound (d * m) w (fun z => escal lam (leaf_val (FGroupL1 m d true) w (vsub z g)))
+        (fun s x => needs_scalar s (fun sg => Ok (prox_l1_l2 m d lam (Some g) sg x))).
+Proof. exact l1_l2_factory_sound. Qed.
+Print Assumptions factory_l1_l2.
+
 (* Kullback-Leibler (values involve ln, so these leaves are outside the executable tree model; the proximal
    formulas are the model's, tied by the correspondence):
    proximal_convex_conj_kl(space, lam, g)(sigma)(x) = (x + lam - sqrt((x-lam)^2 + 4 lam sigma g))/2 is the proximal
